@@ -443,12 +443,13 @@ Hypothesis Hdx : l_lin Lin = dx.
 Hypothesis HLout : l_lin Lout = p.
 Variables (alpha beta kappa : F).
 Let w := ut_weights (O:=O) d alpha beta kappa.
-Hypothesis c_pos : 0 < w_c w.
-Hypothesis sqrt_contract : forall x : F, 0 <= x -> t_sqrt tr x * t_sqrt tr x = x.
-Hypothesis sq_contract : forall n (P : 'M[F]_n), psd P -> sq P *m (sq P)^T = P.
+(* per-instance oracle premises: c = n + lambda is not zero, the scalar square root is a
+   square root of c, the matrix oracle returned a factor of each covariance *)
+Hypothesis c_ne0 : w_c w != 0.
+Hypothesis sqrt_c : t_sqrt tr (w_c w) * t_sqrt tr (w_c w) = w_c w.
 Variables (Am : 'M[F]_(p,d)) (b : 'cV[F]_p).
 Variable comps : list ('cV[F]_d * 'M[F]_d).
-Hypothesis comps_psd : forall mc, In mc comps -> psd mc.2.
+Hypothesis factor_ok : forall mc, In mc comps -> sq mc.2 *m (sq mc.2)^T = mc.2.
 
 Definition affine_image (N : 'M[F]_p) (mc : 'cV[F]_d * 'M[F]_d) : ut_comp O p p dx :=
   mkUtComp (O:=O) (Am *m mc.1 + b : 'cV[F]_p) (Am *m mc.2 *m Am^T + N) (sel d dx *m mc.2 *m Am^T).
@@ -471,7 +472,7 @@ move=> Hi; rewrite /X /sigma_points chunk_concat; last by rewrite map_length.
 by move=> l /in_map_iff [mc [<- _]]; rewrite (sigma_comp_length HLin).
 Qed.
 
-Lemma w_c_neq0 : w_c w != 0. Proof. by rewrite gt_eqF. Qed.
+Lemma w_c_neq0 : w_c w != 0. Proof. exact: c_ne0. Qed.
 
 Lemma ut_core_affine :
   ut_core (O:=O) Lin Lout p dx w comps X (affine_cols (O:=O) Am b X) =
@@ -494,8 +495,8 @@ apply: (@ut_component_affine Lin Lout d dx p HLin Hdx HLout w _ _ _
   by rewrite ssumE ut_weights_mean big_cons sum_repeat.
 - rewrite ut_weights_c; set cc := d%:R + _ in c0 *.
   by rewrite -[_ *+ 2]mulr_natl mul1r invfM mulrA mulfV // mul1r mulVf.
-- by apply: sqrt_contract; apply: ltW.
-- apply: sq_contract; apply: comps_psd; exact: nth_In.
+- exact: sqrt_c.
+- apply: factor_ok; exact: nth_In.
 Qed.
 
 Lemma ut_generic_affine :
@@ -559,11 +560,10 @@ Variables (L : layout) (d : nat).
 Hypothesis HL : linear_layout L d.
 Variables (alpha beta kappa : F).
 Let w := ut_weights (O:=O) d alpha beta kappa.
-Hypothesis c_pos : 0 < w_c w.
-Hypothesis sqrt_contract : forall x : F, 0 <= x -> t_sqrt tr x * t_sqrt tr x = x.
-Hypothesis sq_contract : forall n (P : 'M[F]_n), psd P -> sq P *m (sq P)^T = P.
+Hypothesis c_ne0 : w_c w != 0.
+Hypothesis sqrt_c : t_sqrt tr (w_c w) * t_sqrt tr (w_c w) = w_c w.
 Variables (m : 'cV[F]_d) (P : 'M[F]_d).
-Hypothesis psdP : psd P.
+Hypothesis factor_ok : sq P *m (sq P)^T = P.
 Let Xs := sigma_comp (O:=O) L d d (w_c w) m P.
 
 Lemma sigma_moments_linear :
@@ -574,7 +574,7 @@ Lemma sigma_moments_linear :
 Proof.
 have h2 : (2%:R : F) != 0 by rewrite pnatr_eq0.
 have c0 : d%:R + (alpha * alpha * (d%:R + kappa) - d%:R) != 0.
-  by rewrite -(ut_weights_c d alpha beta kappa) gt_eqF.
+  by rewrite -(ut_weights_c d alpha beta kappa).
 split.
 - exact: sigma_comp_length.
 - by move=> x; exact: sigma_comp_first.
@@ -584,8 +584,8 @@ split.
 - rewrite wouter_maps -/(M2 _ _ m) /w ut_weights_cov /Xs (sigma_M2 HL).
   + rewrite ut_weights_c; set cc := d%:R + _ in c0 *.
     by rewrite -[_ *+ 2]mulr_natl mul1r invfM mulrA mulfV // mul1r mulVf // scale1r.
-  + by apply: sqrt_contract; apply: ltW.
-  + exact: sq_contract.
+  + exact: sqrt_c.
+  + exact: factor_ok.
 Qed.
 End Moments.
 
@@ -612,23 +612,21 @@ Hypothesis Hdx : l_lin Lin = n.
 Hypothesis HLout : l_lin Lout = p.
 Variables (alpha beta kappa : F).
 Let w := ut_weights (O:=O) (n + q) alpha beta kappa.
-Hypothesis c_pos : 0 < w_c w.
-Hypothesis sqrt_contract : forall x : F, 0 <= x -> t_sqrt tr x * t_sqrt tr x = x.
-Hypothesis sq_contract : forall n (P : 'M[F]_n), psd P -> sq P *m (sq P)^T = P.
+Hypothesis c_ne0 : w_c w != 0.
+Hypothesis sqrt_c : t_sqrt tr (w_c w) * t_sqrt tr (w_c w) = w_c w.
 Variables (A : 'M[F]_(p,n)) (B : 'M[F]_(p,q)) (b : 'cV[F]_p) (Q : 'M[F]_q).
-Hypothesis psdQ : psd Q.
 Variable comps : list ('cV[F]_n * 'M[F]_n).
-Hypothesis comps_psd : forall mc, In mc comps -> psd mc.2.
+(* the matrix oracle returned a factor of each augmented covariance blockdiag(P, Q) *)
+Hypothesis factor_ok : forall mc, In mc comps ->
+  sq (block_mx mc.2 0 0 Q) *m (sq (block_mx mc.2 0 0 Q))^T = block_mx mc.2 0 0 Q.
 
 Definition augmented_image (N : 'M[F]_p) (mc : 'cV[F]_n * 'M[F]_n) : ut_comp O p p n :=
   mkUtComp (O:=O) (A *m mc.1 + b : 'cV[F]_p) (A *m mc.2 *m A^T + B *m Q *m B^T + N) (mc.2 *m A^T).
 
 Let acomps : list ('cV[F]_(n + q) * 'M[F]_(n + q)) := List.map (augment_comp (O:=O) Q) comps.
 
-Lemma acomps_psd mc : In mc acomps -> psd mc.2.
-Proof.
-by move=> /in_map_iff [mc0 [<- Hin]]; apply: psd_block_diag => //; apply: comps_psd.
-Qed.
+Lemma acomps_factor mc : In mc acomps -> sq mc.2 *m (sq mc.2)^T = mc.2.
+Proof. by move=> /in_map_iff [mc0 [<- Hin]]; exact: factor_ok. Qed.
 
 Lemma augmented_image_eq N mc :
   affine_image n (row_mx A B) b N (augment_comp (O:=O) Q mc) = augmented_image N mc.
@@ -644,7 +642,7 @@ Lemma ut_generic_affine_augmented :
   Some (mkUtResult (O:=O) (List.map (augmented_image 0) comps)
                    (repeat (1 / (length comps)%:R) (length comps))).
 Proof.
-rewrite (ut_generic_affine HLin Hdx HLout c_pos sqrt_contract sq_contract _ _ acomps_psd).
+rewrite (ut_generic_affine HLin Hdx HLout c_ne0 sqrt_c _ _ acomps_factor).
 by rewrite /acomps map_map map_length (map_ext _ _ (augmented_image_eq 0)).
 Qed.
 
@@ -653,7 +651,7 @@ Lemma ut_state_affine_augmented :
   mkUtResult (O:=O) (List.map (augmented_image 0) comps)
              (repeat (1 / (length comps)%:R) (length comps)).
 Proof.
-rewrite (ut_state_affine HLin Hdx HLout c_pos sqrt_contract sq_contract _ _ acomps_psd).
+rewrite (ut_state_affine HLin Hdx HLout c_ne0 sqrt_c _ _ acomps_factor).
 by rewrite /acomps map_map map_length (map_ext _ _ (augmented_image_eq 0)).
 Qed.
 
